@@ -181,8 +181,15 @@ Definition run_hunt4 (fill stp : N) (ops : list h4op) : string :=
   let b := show (h4transcript hunt4_copies (c_router_ip std_cfg) (h4fresh 0 ops)) in
   out3 (show_bool (String.eqb a b) ++ " " ++ a) ("T " ++ b) "-".
 
+(* off: the field positions the model reads (the L_ constants of Model/Alias.v), compared with the library's getters on a pattern frame *)
+Definition show_loc (n : string) (l : nat * nat) : string := n ++ "=" ++ dec_of_nat (fst l) ++ "." ++ dec_of_nat (snd l).
+Definition offsets_table : string :=
+  join " " [show_loc "ethsrc" L_ETH_SRC; show_loc "ip4src" L_IP4_SRC; show_loc "ip6src" L_IP6_SRC; show_loc "arpsha" L_ARP_SHA;
+            show_loc "arpspa" L_ARP_SPA; show_loc "dhcpxid" L_DHCP_XID; show_loc "dhcpchaddr" L_DHCP_CHADDR].
+
 Definition dispatch (kind : string) (args : list string) : string :=
-  if String.eqb kind "ka" then
+  if String.eqb kind "off" then out3 offsets_table "-" "-"
+  else if String.eqb kind "ka" then
     match args with
     | f :: s :: ops =>
         match N_of_dec f, N_of_dec s, opt_all (map parse_h4op ops) with
